@@ -16,6 +16,7 @@ import (
 	"time"
 
 	"verif/mc/engine"
+	"verif/mc/maporder"
 	"verif/mc/registry"
 )
 
@@ -101,7 +102,7 @@ func run(tier string) int {
 
 	bd := tierBounds(tier)
 	agg := struct {
-		states, transitions, reconciles, foreign, writeFree, mustFree, afterForeign, perms, subsets, maxDepth, closed, capHits, det, finals int
+		states, transitions, reconciles, foreign, writeFree, mustFree, afterForeign, perms, subsets, maxDepth, closed, capHits, det, mapOrder, finals int
 	}{}
 	kindPGs := map[string]int{}
 	kindsSeen := map[string]bool{}
@@ -123,6 +124,7 @@ func run(tier string) int {
 		agg.perms += st.Perms
 		agg.subsets += st.Subsets
 		agg.det += st.DetReplays
+		agg.mapOrder += st.MapOrderReplays
 		agg.finals += st.Finals
 		agg.maxDepth = max(agg.maxDepth, st.MaxDepth)
 		if st.Closed {
@@ -181,30 +183,32 @@ func run(tier string) int {
 	sort.Strings(fk)
 	exhaustive := skipped == 0 && agg.capHits == 0 && len(all) == len(scns)
 	cov := map[string]any{
-		"states":                              agg.states,
-		"transitions":                         agg.transitions,
-		"traces_validated_against_impl":       agg.transitions,
-		"samples":                             samples,
-		"scenarios":                           len(all),
-		"owner_kinds_covered":                 kindList,
-		"podgroups_produced_per_kind":         kindPGs,
-		"permutations_explored":               agg.perms,
-		"replica_subsets_explored":            agg.subsets,
-		"max_history_depth":                   agg.maxDepth,
-		"history_depth_bound":                 bd.depth,
-		"scenarios_closed_before_depth_bound": agg.closed,
-		"reconciles_executed":                 agg.reconciles,
-		"foreign_updates_executed":            agg.foreign,
-		"reconciles_that_wrote_nothing":       agg.writeFree,
-		"reconciles_required_write_free":      agg.mustFree,
-		"reconciles_after_foreign_update":     agg.afterForeign,
+		"states":                                     agg.states,
+		"transitions":                                agg.transitions,
+		"traces_validated_against_impl":              agg.transitions,
+		"samples":                                    samples,
+		"scenarios":                                  len(all),
+		"owner_kinds_covered":                        kindList,
+		"podgroups_produced_per_kind":                kindPGs,
+		"permutations_explored":                      agg.perms,
+		"replica_subsets_explored":                   agg.subsets,
+		"max_history_depth":                          agg.maxDepth,
+		"history_depth_bound":                        bd.depth,
+		"scenarios_closed_before_depth_bound":        agg.closed,
+		"reconciles_executed":                        agg.reconciles,
+		"foreign_updates_executed":                   agg.foreign,
+		"reconciles_that_wrote_nothing":              agg.writeFree,
+		"reconciles_required_write_free":             agg.mustFree,
+		"reconciles_after_foreign_update":            agg.afterForeign,
 		"foreign_update_kinds_followed_by_reconcile": fk,
-		"foreign_update_kinds":                bd.foreign,
-		"all_reconciled_states_compared":      agg.finals,
-		"determinism_replays":                 agg.det,
-		"state_caps_hit":                      agg.capHits,
-		"scenarios_skipped_by_deadline":       skipped,
-		"exhaustive":                          exhaustive,
+		"foreign_update_kinds":                       bd.foreign,
+		"all_reconciled_states_compared":             agg.finals,
+		"determinism_replays":                        agg.det,
+		"map_order_replays":                          agg.mapOrder,
+		"map_seeds":                                  mapSeeds,
+		"state_caps_hit":                             agg.capHits,
+		"scenarios_skipped_by_deadline":              skipped,
+		"exhaustive":                                 exhaustive,
 		"explanation": "state = canonical dump of all PodGroups (spec, labels, annotations, ownerReferences, status) + pods' pod-group annotation / subgroup label; " +
 			"transition = one real PodReconciler.Reconcile or one foreign PodGroup update; phase 1 = every permutation of first reconciles + 2 further passes; " +
 			"phase 2 = BFS over histories from the empty store with canonical-state dedup up to the depth bound",
@@ -320,9 +324,22 @@ func replay(path string) int {
 		}
 		return &finalState{hist: hist, view: view, clean: clean}
 	}
+	maporder.Set(mapSeeds[0])
 	a := runOne(v.Replay.History)
 	if a == nil {
 		return 2
+	}
+	if v.Replay.Law == "map-order" {
+		maporder.Set(mapSeeds[2])
+		b2 := runOne(v.Replay.History)
+		maporder.Set(mapSeeds[0])
+		if b2 == nil {
+			return 2
+		}
+		if a.view.canon() != b2.view.canon() {
+			fmt.Printf("  oracle: %s: stores differ between map seeds %d and %d\n", v.Key, mapSeeds[0], mapSeeds[2])
+			found = true
+		}
 	}
 	if v.Replay.Law == "replica-independence" {
 		full := runOne(v.Replay.Other)
